@@ -607,6 +607,7 @@ pixman_transform_bounds (const struct pixman_transform *matrix,
     struct pixman_vector v[4];
     int i;
     int x1, y1, x2, y2;
+    int bx1 = 0, by1 = 0, bx2 = 0, by2 = 0;
 
     v[0].vector[0] = F (b->x1);
     v[0].vector[1] = F (b->y1);
@@ -629,26 +630,36 @@ pixman_transform_bounds (const struct pixman_transform *matrix,
 	if (!pixman_transform_point (matrix, &v[i]))
 	    return FALSE;
 
+	/* ceil without overflowing pixman_fixed_t near 32768 */
 	x1 = pixman_fixed_to_int (v[i].vector[0]);
 	y1 = pixman_fixed_to_int (v[i].vector[1]);
-	x2 = pixman_fixed_to_int (pixman_fixed_ceil (v[i].vector[0]));
-	y2 = pixman_fixed_to_int (pixman_fixed_ceil (v[i].vector[1]));
+	x2 = x1 + (pixman_fixed_frac (v[i].vector[0]) != 0);
+	y2 = y1 + (pixman_fixed_frac (v[i].vector[1]) != 0);
 
 	if (i == 0)
 	{
-	    b->x1 = x1;
-	    b->y1 = y1;
-	    b->x2 = x2;
-	    b->y2 = y2;
+	    bx1 = x1;
+	    by1 = y1;
+	    bx2 = x2;
+	    by2 = y2;
 	}
 	else
 	{
-	    if (x1 < b->x1) b->x1 = x1;
-	    if (y1 < b->y1) b->y1 = y1;
-	    if (x2 > b->x2) b->x2 = x2;
-	    if (y2 > b->y2) b->y2 = y2;
+	    if (x1 < bx1) bx1 = x1;
+	    if (y1 < by1) by1 = y1;
+	    if (x2 > bx2) bx2 = x2;
+	    if (y2 > by2) by2 = y2;
 	}
     }
+
+    /* the box is 16 bit */
+    if (bx1 < INT16_MIN || by1 < INT16_MIN || bx2 > INT16_MAX || by2 > INT16_MAX)
+	return FALSE;
+
+    b->x1 = bx1;
+    b->y1 = by1;
+    b->x2 = bx2;
+    b->y2 = by2;
 
     return TRUE;
 }
